@@ -299,6 +299,6 @@ def cfg(prop, theorems, extras, **kw):
          "corpus": ["\\G\\d*", "a|(?<=\\Ka)b", "a*", "(?<=a)|b", "\\b", "(?:a|b)*?", "(?=a)", "$", "(x+x+)+(?=y)|$", "", "^", "(?!x)", "é*", "\\d*(?=é)"],
          "extra_texts": ["12 34", "", "é", "aé", "xxy xxxx", "a,é", "éé", "aaa", "ab", "abc"],
          "alpha": ["a", "b", "é", "-", "1"],
-         "assumptions": ["the API theorems are over any search function satisfying SearchOK; that the compiled VM search satisfies it is part of C05's invariant (validated, not proved here)"]}
+         "assumptions": ["the API theorems are over any search function satisfying SearchOK; for VM-compiled patterns inside the end-to-end theorem with no \\K under a look-behind the compiled search is PROVED to satisfy it at every character boundary, and the iterators are proved to search from boundaries only (Proofs/ApiVm.v, KeepOut.v: the *_vm_* theorems); for wholly-easy patterns the search is regex-automata's (oracle)"]}
     c.update(kw)
     return c
